@@ -180,10 +180,17 @@ func r3clone(c *core.Ctx) {
 	cvDecided, intDecided := r3agree(c)
 	const R = "R3.clone"
 	c.Rule(R, "encoder/decoder sibling primitives agree in their cloned guard chains and loops")
+	// encRef: when the encoder's side of a pair was decided semantically by another rule and no longer
+	// contains the construct, the decoder is compared with this reference set instead
+	var encRef []string
 	pair := func(key, encName, decName string, re *regexp.Regexp, what string, minN int) {
 		enc, dec := mustFunc(c, pAper, encName), mustFunc(c, pAper, decName)
 		e, d := sigSet(condFamily(enc, re), re), sigSet(condFamily(dec, re), re)
 		c.Sites(2)
+		if ref := encRef; ref != nil && len(e) == 0 && len(d) > 0 {
+			c.Check(strings.Join(d, " ") == strings.Join(ref, " "), R, key, dec.Pos(), strings.Join(d, " ")+" (the encoder's side decided on the evaluator)", "%s: the decoder (%s) uses %v, the encoding rules (and the encoder, as evaluated) use %v — a value encoded on one side is decoded differently on the other", what, decName, d, ref)
+			return
+		}
 		if len(e) < minN && len(d) < minN {
 			c.SoftUndecided("%s: neither %s nor %s contains the expected %s (clone not recognised)", key, encName, decName, what)
 			return
@@ -219,8 +226,19 @@ func r3clone(c *core.Ctx) {
 	} else if _, why2 := seqofEncEval(c); why2 != "" {
 		pair("aper:sequence-of-size-guards", "perRawBitData.parseSequenceOf", "perBitData.parseSequenceOf", regexp.MustCompile(`(p2\.size(?:Lower|Upper)Bound<65536)`), "SEQUENCE OF size-bound guards", 2)
 	}
+	// BIT/OCTET STRING size classes: R3.strlen decides on the evaluator under which bounds the encoder uses
+	// the constrained form; the textual comparison with the decoder is the fallback
+	r3strlen(c)
+	if strlenEncDecided[c]["perRawBitData.appendBitString"] {
+		encRef = []string{"==1", ">65535"}
+	}
 	pair("aper:bitstring-size-classes", "perRawBitData.appendBitString", "perBitData.parseBitString", regexp.MustCompile(`^\(phi\(.*\)(>65535|==1)\)$`), "BIT STRING size classes", 2)
+	encRef = nil
+	if strlenEncDecided[c]["perRawBitData.appendOctetString"] {
+		encRef = []string{"==1", ">65535"}
+	}
 	pair("aper:octetstring-size-classes", "perRawBitData.appendOctetString", "perBitData.parseOctetString", regexp.MustCompile(`^\(phi\(.*\)(>65535|==1)\)$`), "OCTET STRING size classes", 2)
+	encRef = nil
 	// CHOICE index: both sides use range ub+1
 	encC, decC := mustFunc(c, pAper, "perRawBitData.appendChoiceIndex"), mustFunc(c, pAper, "perBitData.getChoiceIndex")
 	pe, pd := core.NewPather(encC), core.NewPather(decC)
